@@ -1051,14 +1051,12 @@ class ConditionalRelation(RelationProtocol, SimpleRepr):
             # We have all arguments to evaluate the condition, we can take it
             # out when slicing.
             if self._condition(**cond_args):
-                if len(partial_assignment) > len(cond_args):
-                    # We have some extra variables to slice the consequence on.
-                    slice_dict = {
-                        k: v for k, v in partial_assignment.items() if k in true_names
-                    }
-                    return self._relation_if_true.slice(slice_dict)
-                else:
-                    return self._relation_if_true
+                # slice the consequence on all its assigned variables, including
+                # those it shares with the condition
+                slice_dict = {
+                    k: v for k, v in partial_assignment.items() if k in true_names
+                }
+                return self._relation_if_true.slice(slice_dict)
             else:
                 if self._return_neutral:
                     remaining_vars = [
